@@ -62,5 +62,14 @@ PROPS["C16"] = {
     "rule": "Same history generator as C09; per history every failing write index k (exhaustive) x acceptance length {0, random proper prefix, all}.",
     "trusted": ["compress/flate, snappy determinism (fault-free and faulty runs compress identically)"],
 }
+PROPS["C14"] = {
+    "lean_modules": ["AvroModel.Props.C14"],
+    "required_theorems": [],
+    "harness": ["C14"],
+    "level_text": "TBD",
+    "level_note": "TBD",
+    "rule": "TBD",
+    "trusted": [],
+}
 
 NOT_APPLICABLE = {}
